@@ -18,6 +18,7 @@ import M4riProofs.W.Observers
 import M4riProofs.Bridge
 import M4riProofs.MulW
 import M4riProofs.Props.C01x
+import M4riProofs.GenTieMem
 namespace M4ri.Props.C09
 open M4ri M4ri.Mzd
 
@@ -68,5 +69,19 @@ theorem lens_put_keeps_excess (M : Mzd) (B : BMat) (h : M.WF) (i j : Nat) (hi : 
 #check @M4ri.Mzd.W.m4rmPassW_spec
 #check @M4ri.Mzd.W.mulNaiveTW_bit
 #check @M4ri.Mzd.W.mulVaW_bit
+
+
+/-! ### tie to the C text (word-level kernels on the memory model): the functions `Gen.C.mzd…` are GENERATED from
+    /repo/m4ri by vlib/ctrans.py (clang AST) on every check; a matrix is its memory image `memOf M : row → word → BitVec 64`.
+    Each theorem: the generated C function run on the image of a well-formed model matrix = the image of the model
+    function's result (hence also: no cell outside the addressed words changes) -/
+#check @M4ri.GenTieMem.mzdXorBits_eq
+#check @M4ri.GenTieMem.mzdAndBits_eq
+#check @M4ri.GenTieMem.mzdClearBits_eq
+#check @M4ri.GenTieMem.mzdWriteBit_eq
+#check @M4ri.GenTieMem.mzdRowSwap_eq
+#check @M4ri.GenTieMem.mzdRowAddOffset_eq
+#check @M4ri.GenTieMem.mzdRowClearOffset_eq
+#check @M4ri.GenTieMem.mzdCopyRow_eq
 
 end M4ri.Props.C09
